@@ -86,7 +86,17 @@ func (s *p3stats) verdict(k string) {
 	atomic.AddInt64(v.(*int64), 1)
 }
 
-func runValidateBlock(r *vk.Run, st *p3stats, w *world, nv int) {
+// direct asks VerifyCommit itself, under the set in force, about the commit a call site mis-judged: if it gives the
+// same wrong verdict the root cause is VerifyCommit (part 1's site), otherwise the call site.
+func direct(set *types.ValidatorSet, claimed int, pre []*types.Vote) (accepts bool) {
+	vk.Catch(func() {
+		accepts = set.VerifyCommit(chainID, blockIDs[claimed], H, &types.Commit{BlockID: blockIDs[claimed], Precommits: pre}) == nil
+	})
+	return
+}
+
+func runValidateBlock(rp *reporter, st *p3stats, w *world, nv int) {
+	r := rp.r
 	tab := w.slotTable(0, stdIDs)
 	exec := consensus.NewBlockExecutor(dbm.NewMemDB(), log.Root(), consensus.MockEvidencePool{})
 	// self-test: with a unanimous commit every clause of validation holds, so LastCommit is the only variable
@@ -99,8 +109,10 @@ func runValidateBlock(r *vk.Run, st *p3stats, w *world, nv int) {
 		if slotVariants[2].name != "A" {
 			vk.Fatalf("slot alphabet order changed")
 		}
-		if err := exec.ValidateBlock(status, height2Block(status, &types.Commit{BlockID: blockIDs[idA], Precommits: pre})); err != nil {
-			vk.Fatalf("ValidateBlock rejects the harness's fully valid height-2 block (%s): %v", w, err)
+		if err := exec.ValidateBlock(status, height2Block(status, &types.Commit{BlockID: blockIDs[idA], Precommits: pre})); err != nil && !contains(err.Error(), "Invalid commit") {
+			// a complaint about the commit itself is the enumeration's business (reported below as a violation);
+			// any other complaint means the harness built a block that fails a clause it was meant to satisfy
+			vk.Fatalf("ValidateBlock rejects the harness's height-2 block for a reason other than its LastCommit (%s): %v", w, err)
 		}
 	}
 	total := pow(nv, w.n)
@@ -150,11 +162,19 @@ func runValidateBlock(r *vk.Run, st *p3stats, w *world, nv int) {
 					if err == nil {
 						atomic.AddInt64(&st.accepted, 1)
 						if !ref {
-							r.Violation("validateblock:accepts-lastcommit-without-quorum:"+w.cause(slots, claimed, H, 0),
+							site := "validateblock"
+							if direct(w.valSet(), claimed, pre) {
+								site = "verifycommit"
+							}
+							rp.accepts(site, w, append([]*vdesc{}, slots...), claimed, 0,
 								fmt.Sprintf("ValidateBlock accepts a block whose LastCommit does not hold correctly signed precommits of more than 2/3 of LastValidators for the previous block id %s", idName[claimed]), d())
 						}
 					} else if clean && ref {
-						r.Violation("validateblock:rejects-valid-lastcommit", fmt.Sprintf("ValidateBlock rejects (%v) a block whose LastCommit is a valid commit for the previous block id", err), d())
+						key := "validateblock:rejects-valid-lastcommit"
+						if !direct(w.valSet(), claimed, pre) {
+							key = "verifycommit:rejects-valid-commit"
+						}
+						r.Violation(key, fmt.Sprintf("ValidateBlock rejects (%v) a block whose LastCommit is a valid commit for the previous block id", err), d())
 					}
 				}
 			}
@@ -258,7 +278,8 @@ type fsScenario struct {
 	refOff  int    // pool offset of the set in force for `first` (0 = status.Validators, 1 = recover set)
 }
 
-func runFastSync(r *vk.Run, st *p3stats, w *world, nv int, scs []fsScenario) {
+func runFastSync(rp *reporter, st *p3stats, w *world, nv int, scs []fsScenario) {
+	r := rp.r
 	rec := shifted(w)
 	// the set in force: for a normal block status.Validators (= w, keys 0..), for a recover block the recover set
 	// (= rec, keys 1..)
@@ -277,7 +298,7 @@ func runFastSync(r *vk.Run, st *p3stats, w *world, nv int, scs []fsScenario) {
 	}
 	var jobs []job
 	for i := range scs {
-		for a := 0; a < total; a++ {
+		for a := 0; a < 2*total; a++ {
 			jobs = append(jobs, job{&scs[i], a})
 		}
 	}
@@ -300,7 +321,13 @@ func runFastSync(r *vk.Run, st *p3stats, w *world, nv int, scs []fsScenario) {
 				}
 				tab := tabs[sc.name]
 				asg := make([]int, w.n)
-				decode(jobs[j].asg, nv, w.n, asg)
+				// the BlockID the pair itself names (second.LastCommit.BlockID, second.LastBlockID): the id of first, or
+				// the id the "B" slots vote for — only the id computed from first may count
+				field := sc.claimed
+				if jobs[j].asg >= total {
+					field = sc.ids[2]
+				}
+				decode(jobs[j].asg%total, nv, w.n, asg)
 				slots := make([]*vdesc, w.n)
 				pre := make([]*types.Vote, w.n)
 				for i, v := range asg {
@@ -316,9 +343,9 @@ func runFastSync(r *vk.Run, st *p3stats, w *world, nv int, scs []fsScenario) {
 				app := &fsApp{recover: rec.valSetFrom(1).Validators}
 				first := fsFirst(sc.first)
 				second := &types.Block{
-					Header:     &types.Header{ChainID: chainID, Height: H + 1, Time: 1577934246, LastBlockID: blockIDs[sc.claimed]},
+					Header:     &types.Header{ChainID: chainID, Height: H + 1, Time: 1577934246, LastBlockID: blockIDs[field]},
 					Data:       &types.Data{},
-					LastCommit: &types.Commit{BlockID: blockIDs[sc.claimed], Precommits: pre},
+					LastCommit: &types.Commit{BlockID: blockIDs[field], Precommits: pre},
 				}
 				exec := consensus.NewBlockExecutor(dbm.NewMemDB(), log.Root(), consensus.MockEvidencePool{})
 				bcR := blockchain.NewBlockchainReactor(status, exec, app, true, fsSwitch{})
@@ -333,6 +360,7 @@ func runFastSync(r *vk.Run, st *p3stats, w *world, nv int, scs []fsScenario) {
 					m := describe(w, tab, asg, sc.claimed)
 					m["site"] = "BlockchainReactor.poolRoutine"
 					m["scenario"] = sc.name
+					m["block_id_named_by_second_block"] = idName[field]
 					m["signing_keys"] = fmt.Sprintf("pool keys %d..%d", sc.signOff, sc.signOff+w.n-1)
 					m["set_in_force"] = fmt.Sprintf("%s, pool keys %d..", refW, sc.refOff)
 					return m
@@ -345,13 +373,21 @@ func runFastSync(r *vk.Run, st *p3stats, w *world, nv int, scs []fsScenario) {
 						r.Violation("fastsync:commits-with-other-commit", "fast sync stores another commit than the one it verified", d())
 					}
 					if !ref {
-						r.Violation("fastsync:accepts-without-quorum:"+sc.name+":"+refW.cause(slots, sc.claimed, H, sc.refOff),
+						site := "fastsync"
+						if direct(refW.valSetFrom(sc.refOff), sc.claimed, pre) {
+							site = "verifycommit"
+						}
+						rp.accepts(site, refW, slots, sc.claimed, sc.refOff,
 							fmt.Sprintf("fast sync commits block %s although second.LastCommit does not hold correctly signed precommits of more than 2/3 of the set in force for exactly that block id", idName[sc.claimed]), d())
 					}
 				case fsRejected:
 					st.verdict("fastsync:" + sc.name + ":reject")
 					if ref && refW.clean(slots, H, sc.refOff) {
-						r.Violation("fastsync:rejects-valid-commit:"+sc.name, "fast sync rejects a pair of blocks whose commit is valid for the first block", d())
+						key := "fastsync:rejects-valid-commit"
+						if !direct(refW.valSetFrom(sc.refOff), sc.claimed, pre) {
+							key = "verifycommit:rejects-valid-commit"
+						}
+						r.Violation(key, "fast sync rejects a pair of blocks whose commit is valid for the first block", d())
 					}
 				default:
 					vk.Fatalf("fast-sync driver: poolRoutine ended with %v (scenario %s)", stopped, sc.name)
